@@ -28,12 +28,13 @@ UNKNOWN_TYPES = None
 
 class AVal:
     """Abstract value: provenance term + possible classes (exact = allocation / literal class)."""
-    __slots__ = ('term', 'types', 'exact')
+    __slots__ = ('term', 'types', 'exact', 'await_types')
 
-    def __init__(self, term, types=None, exact=False):
+    def __init__(self, term, types=None, exact=False, await_types=None):
         self.term = term
         self.types = frozenset(types) if types is not None else None
         self.exact = exact
+        self.await_types = frozenset(await_types) if await_types else None  # classes of `await <this value>`
 
     def __repr__(self):
         return 'AVal(%s%s)' % (fmt_term(self.term), '' if self.types is None else ' : ' + ','.join(
@@ -251,7 +252,7 @@ class Interp:
 
     # ------------------------------------------------------------------ entry
     def run(self, func: FuncInfo, self_cls: Optional[ClassInfo] = None, args: Optional[Dict[str, AVal]] = None,
-            self_val: Optional[AVal] = None) -> List[Path]:
+            self_val: Optional[AVal] = None, self_exact: bool = True) -> List[Path]:
         st = State()
         for k, v in self.opt.initial_heap.items():
             st.heap[k] = v
@@ -260,7 +261,7 @@ class Interp:
         fr_self = None
         if func.cls is not None and params and not self._is_static(func):
             cls = self_cls or func.cls
-            fr_self = self_val or AVal(('self',), [cls], exact=True)
+            fr_self = self_val or AVal(('self',), [cls], exact=self_exact)
             locals_[params[0]] = fr_self
             params = params[1:]
         elif func.parent is not None:
@@ -560,7 +561,7 @@ class Interp:
                     yield s, out[0], out[1]
                     continue
                 funcs = callee.get('funcs') or []
-                if len(funcs) == 1 and funcs[0].is_contextmanager():
+                if len(funcs) == 1 and funcs[0].is_contextmanager() and self._may_inline(funcs[0], s):
                     yield from self._with_generator_cm(n, item, rest, funcs[0], callee, ce, s, is_async)
                 else:
                     yield from self._with_opaque(n, item, rest, s, is_async)
@@ -1349,11 +1350,26 @@ class Interp:
                 sc.emit('raise', e, exc=exc, implicit='cancel')
                 yield sc, None, (RAISE, exc)
             res = v
-            if v.term[0] == 'coro_result':
-                res = AVal(v.term[1], v.types, v.exact)
-            elif v.term[0] not in ('const',):
-                res = AVal(('awaited', v.term), v.types)
+            if v.await_types:
+                res = AVal(('awaited', v.term), v.await_types)
+            elif v.term[0] == 'const':
+                res = v
+            elif isinstance(e.value, ast.Call) and self._last_call_async(s, e.value):
+                res = v  # awaited call of an async function: v already is the coroutine's result
+            else:
+                res = AVal(('awaited', v.term), None)
             yield s, res, None
+
+    @staticmethod
+    def _last_call_async(s: State, call_node) -> bool:
+        """Was the awaited call resolved to async repository functions (inlined or atomic)?"""
+        for ev in reversed(s.events):
+            if ev.node is call_node and ev.kind in ('exit', 'call'):
+                if ev.kind == 'exit':
+                    return bool(ev.data['callee'].is_async)
+                t = ev.data.get('targets') or []
+                return bool(t) and all(f.is_async for f in t)
+        return False
 
     def _ex_Yield(self, e, st):
         if e.value is None:
@@ -1533,6 +1549,12 @@ class Interp:
                     continue
                 if c.qualname in APP_INTERFACES and not base.exact:
                     app = True
+                    # implementations that live in the repository (call graph edges; never inlined: the receiver
+                    # may just as well be application code)
+                    for k in [c] + self.repo.subclasses(c):
+                        t = k.methods.get(name)
+                        if t is not None and not any('abstractmethod' in d for d in t.decorators):
+                            funcs.append(t)
                     continue
                 cands = [c] if base.exact else [c] + self.repo.subclasses(c)
                 found = False
@@ -1614,11 +1636,11 @@ class Interp:
                     value = AVal(('pure', name, rterm, tuple(a.term for a in pos),
                                   st.recv_epoch.get(rterm, 0), st.epoch if how != 'external' or True else 0), None)
                 else:
-                    rt = self._return_types(funcs)
-                    if rt is None and how == 'external':
+                    rt, awt = self._return_types(funcs)
+                    if rt is None and awt is None and how == 'external':
                         rt = [External('%s()' % name)]
                     value = AVal(('call', name, tuple(a.term for a in pos) + tuple(
-                        ('kw', k, v.term) for k, v in sorted(kw.items())), next(self._site)), rt)
+                        ('kw', k, v.term) for k, v in sorted(kw.items())), next(self._site)), rt, False, awt)
             ev = st.emit('call', e, name=name, how=how, recv=recv, args=pos, kwargs=kw, targets=funcs,
                          value=value, callee=callee, awaited=awaited)
             if name in ('add_done_callback', 'call_soon', 'call_later') and pos:
@@ -1756,14 +1778,19 @@ class Interp:
         return out
 
     def _return_types(self, funcs):
+        """(classes of the call's value, classes of `await <value>` when the value is an awaitable)."""
         if not funcs:
-            return None
+            return None, None
         out = []
+        aw = []
         for f in funcs:
             t = self.repo.annotation_types(f.module, f.node.returns, f.cls)
-            if t:
-                out.extend(x for x in t if isinstance(x, (ClassInfo, External)))
-        return out or None
+            for x in t or []:
+                if isinstance(x, (ClassInfo, External)):
+                    out.append(x)
+                elif isinstance(x, tuple) and x[0] == 'awaitable':
+                    aw.extend(x[1])
+        return (out or None), (aw or None)
 
     def _summary_may_raise(self, funcs) -> bool:
         """May a call of one of these (un-inlined) repository functions raise when application call-outs may raise?
@@ -1907,6 +1934,10 @@ class Interp:
             if out == FALL:
                 yield s, const(None), None
             elif out == RETURN:
+                if not f.is_async and val is not None and val.await_types is None and f.node.returns is not None:
+                    _, awt = self._return_types([f])
+                    if awt:
+                        val = AVal(val.term, val.types, val.exact, awt)
                 yield s, val, None
             elif out == RAISE:
                 yield s, None, (RAISE, val)
